@@ -34,7 +34,7 @@ var watchRoot = scratchRoot("/tmp/cdi-verif-watch")
 
 // file-system operations of a history (each applies to the single configured directory D)
 var watchOps = []string{"writeInPlace", "writeViaTemp", "rewrite", "unlink", "renameAway", "moveIn", "linkIn", "creatEmpty",
-	"tempFile", "rmdir", "mkdir", "lock", "unlock", "pause", "moveInOld", "linkInOld", "writeBad"}
+	"tempFile", "rmdir", "mkdir", "lock", "unlock", "pause", "moveInOld", "linkInOld", "writeBad", "replaceKeepStat"}
 
 func specBytes(tag string, n int) []byte { return specBytesOf("vendor.com/class", tag, n) }
 
@@ -68,6 +68,8 @@ func (watchStream) Generate(rng *rand.Rand, tier string, emit func(Case)) {
 		// the same kind of event several times in a row (each must be acted upon)
 		{"writeInPlace", "pause", "rewrite", "pause", "rewrite"}, {"writeInPlace", "rewrite", "rewrite", "rewrite"},
 		{"writeViaTemp", "pause", "writeViaTemp", "pause", "writeViaTemp"}, {"moveIn", "pause", "moveIn", "pause", "moveIn"},
+		// a version of the same size and modification time replaces the file
+		{"writeInPlace", "pause", "replaceKeepStat"}, {"writeViaTemp", "pause", "replaceKeepStat", "pause", "replaceKeepStat"}, {"moveIn", "pause", "replaceKeepStat"},
 		{"writeInPlace", "pause", "unlink", "pause", "writeInPlace", "pause", "unlink", "pause", "writeInPlace"},
 	}
 	for hi, h := range fixed {
@@ -100,6 +102,9 @@ func (watchStream) Generate(rng *rand.Rand, tier string, emit func(Case)) {
 		{"lock", "rmdir@1", "mkdir@1", "writeInPlace@1", "unlock", "pause", "rmdir@1", "writeInPlace@0"},
 		{"lock", "rmdir@0", "mkdir@0", "writeInPlace@0", "unlock", "pause", "rewrite@0"},
 		{"rmdir@0", "rmdir@1", "pause", "mkdir@1", "pause", "writeViaTemp@1", "mkdir@0", "linkInOld@0"},
+		// the file that overrides a lower-priority definition is removed / renamed away: the lower one counts again
+		{"writeInPlace@0", "writeInPlace@1", "pause", "unlink@1"}, {"writeInPlace@0", "writeInPlace@1", "pause", "renameAway@1"},
+		{"writeInPlace@1", "pause", "writeInPlace@0", "pause", "unlink@1", "pause", "writeInPlace@1", "pause", "renameAway@1"},
 		// the higher-priority directory goes away and comes back with a Spec overriding a device that still resolves
 		{"writeInPlace@0", "writeInPlace@1", "pause", "rmdir@1", "pause", "mkdir@1", "writeInPlace@1"},
 		{"writeInPlace@0", "rmdir@1", "pause", "lock", "mkdir@1", "moveIn@1", "unlock"},
@@ -222,6 +227,25 @@ func doFsOpKind(kind, op, d, outside string, counter *int) bool {
 		}
 		tmp := filepath.Join(d, "spec.123.tmp")
 		_ = os.WriteFile(tmp, specBytes(tag, 1+*counter%3), 0o644)
+		return os.Rename(tmp, target) == nil
+	case "replaceKeepStat":
+		// another version of the same length and with the same modification time replaces the file (cp -p, rsync -t,
+		// a package with clamped timestamps): moved in from outside over the old one
+		fi, err := os.Stat(target)
+		if err != nil || !fi.Mode().IsRegular() {
+			return false
+		}
+		old, _ := os.ReadFile(target)
+		repl := []byte(strings.Replace(string(old), "TAG=", "TAG=~", 1))
+		if len(repl) > len(old) && strings.Contains(string(repl), "TAG=~v") {
+			repl = []byte(strings.Replace(string(repl), "TAG=~v", "TAG=~", 1)) // same length again
+		}
+		if len(repl) != len(old) || string(repl) == string(old) {
+			return false
+		}
+		tmp := filepath.Join(outside, "same-stat-"+tag)
+		_ = os.WriteFile(tmp, repl, 0o644)
+		_ = os.Chtimes(tmp, fi.ModTime(), fi.ModTime())
 		return os.Rename(tmp, target) == nil
 	case "unlink":
 		return os.Remove(target) == nil
